@@ -3,7 +3,7 @@ import re
 import e2
 
 TIE = ["Nsq.Tie.Chan", "Nsq.Tie.ChanFunc", "Nsq.Tie.PubCounts"]
-PROPS = ["Nsq.Props.C13", "Nsq.Props.C13Pub", "Nsq.Props.C13Full", "Nsq.Props.C13Windows", "Nsq.Props.C13Bytes"]
+PROPS = ["Nsq.Props.C13", "Nsq.Props.C13Pub", "Nsq.Props.C13Full", "Nsq.Props.C13Windows", "Nsq.Props.C13Bytes", "Nsq.Props.C13Nsqd"]
 
 
 def run(ctx):
